@@ -167,6 +167,10 @@ func (b *block) readFrom(r io.ReadCloser) error {
 	b.owner = nil
 	n, err := readToEOF(r, b.data[:])
 	if err != nil {
+		// The data array has been overwritten: a recycled Block must
+		// not keep the reader over its previous member's data, or it
+		// passes for a Block with data and is cached under its new base.
+		b.buf = nil
 		return err
 	}
 	b.buf = bytes.NewReader(b.data[:n])
